@@ -241,8 +241,8 @@ func runC15(c *Ctx) {
 			prev = append([]mars.Insn(nil), ref.Core...)
 		}
 		// fold states
-		mine := make([]cellState, m)  // fold of the real stream
-		refst := make([]refCell, m)   // fold of the reference events
+		mine := make([]cellState, m) // fold of the real stream
+		refst := make([]refCell, m)  // fold of the reference events
 		for i := range mine {
 			mine[i] = cellState{g.CoreEmpty, -1}
 			refst[i] = refCell{owner: -1}
